@@ -4,7 +4,13 @@
    it rejects).  Core = hand-written, every slot of SelectStatement / Measurement / every
    Expr node kind the parser can produce occurs at least once.  Extra(n, seed) = clause
    options combined with co-prime strides (each option occurs many times, in changing
-   company).  rich = TRUE marks the statements that get the longer histories.          *)
+   company).  rich = TRUE marks the statements that get the longer histories.
+   For every derived (read-only) operation there are inputs on which it has work to do, so that
+   an in-place implementation would show in the receiver: constants of every literal kind for
+   Reduce / Eval, time bounds with `time` on either side for ConditionExpr, casts / wildcards /
+   regex fields for RewriteFields, name conflicts and top()/bottom() tags for ColumnNames and the
+   name queries, INTO targets and sub-queries for RequiredPrivileges (measured once with
+   go test -coverpkg over ast.go: conditionExpr, ColumnNames, FieldExprByName, walkNames 100 %).          *)
 EXTENDS Naturals, Sequences
 
 St(t) == [text |-> t, rich |-> FALSE]
@@ -51,7 +57,30 @@ Core == <<
   St("SELECT first(v), last(v), host FROM m GROUP BY region"),
   St("SELECT v FROM db.rp.m, (SELECT max(w) FROM n GROUP BY time(1m)), /z/"),
   St("SELECT \"time\", \"v\"::integer FROM \"m\" WHERE \"host\" = 'its'"),
-  St("SELECT elapsed(v, 1s), moving_average(mean(v), 3) FROM m WHERE time >= 0 AND time <= 100 GROUP BY time(10u)")
+  St("SELECT elapsed(v, 1s), moving_average(mean(v), 3) FROM m WHERE time >= 0 AND time <= 100 GROUP BY time(10u)"),
+  \* time bounds written `literal op time` (conditionExpr flips the operator), mixed with tag predicates and parentheses
+  Rich("SELECT v FROM m WHERE 100 < time AND now() - 10m >= time AND host = 'a'"),
+  St("SELECT mean(v) FROM m WHERE '2000-01-01T00:00:00Z' <= time AND (host = 'a' OR host =~ /^b$/) AND '2000-01-02T00:00:00Z' > time GROUP BY time(1h)"),
+  St("SELECT v FROM m WHERE (region = 'x' AND (100 <= time AND 200 > time)) AND (10s < time)"),
+  St("SELECT a FROM (SELECT mean(v) AS a FROM m WHERE 100 < time AND now() >= time AND host = 'a' GROUP BY time(1m)) WHERE 150 <= time AND a > 1"),
+  St("SELECT v FROM m WHERE time > 100.5 AND time < 10s AND time = '2000-01-01 00:00:00' AND time <= '2000-01-03' tz('America/Chicago')"),
+  St("SELECT v FROM m WHERE now() - 1h < time AND time < now() + 1h"),
+  \* constants that Reduce / Eval fold, per kind of left operand; also in GROUP BY time() and inside a sub-query
+  Rich("SELECT 1 + 2 * 3, 2.0, 1.5 * 2, v + (1 + 1) FROM m WHERE 1 + 2 * 3 > v AND true AND 1h + 30m > d AND 'a' + 'b' = s AND (false OR b) GROUP BY time(1m * 5)"),
+  St("SELECT mean(v) FROM (SELECT v FROM cpu WHERE time > now() - 1h AND v > 1 + 2) WHERE 2 * 3 = 6 GROUP BY time(2 * 30s)"),
+  St("SELECT v FROM m WHERE nilv = 1 OR 18446744073709551615 - 1 > u OR 7 % 3 = 1 OR 3.0 / 2 >= 1 OR 'abc' =~ /b/"),
+  \* type casts and wildcards that RewriteFields resolves / expands, also through sub-queries
+  Rich("SELECT value::field, max(n::integer), x::float, host::tag FROM cpu WHERE value::field > 0 AND host::tag = 'a' GROUP BY host"),
+  St("SELECT *::tag, *::field, v::field FROM m GROUP BY /^h/, region"),
+  St("SELECT mean(*), count(/^v/), holt_winters(mean(*), 10, 2), count() FROM m GROUP BY time(1m)"),
+  St("SELECT * FROM (SELECT mean(v) AS a, max(w) FROM m GROUP BY host, time(1m)) GROUP BY *"),
+  St("SELECT a, host FROM (SELECT mean(v) AS a FROM m GROUP BY host)"),
+  St("SELECT mean(*::tag) FROM m"),
+  \* names: conflicts, parentheses, top / bottom with tags, calls inside binary expressions
+  St("SELECT v_1, v, v, mean(v), mean(v) AS v, (v), (v + w) * 2, (v + f(w)), u + w, u + 1 FROM m"),
+  St("SELECT top(v, host, region, 3), bottom(w, host, 2), w INTO db.rp.t FROM db.rp.m"),
+  \* regex conditions: rewritten and not rewritten shapes
+  St("SELECT v FROM m WHERE a =~ /^a/ AND b =~ /a$/ AND c =~ /^(a|b.*)$/ AND d !~ /^a|b$/ AND e =~ /^(x)$/ AND f =~ /^x\\.y$/")
 >>
 
 (* ------------------------------------------------------------------ combined clauses *)
@@ -82,6 +111,40 @@ Exprs == <<
   "a = 'x' AND b =~ /^y$/", "(a + b) * c / 2", "f(a, b, 1)", "f(g(h(x)))", "count(DISTINCT x)",
   "time > now() - 1h", "time >= '2000-01-01T00:00:00Z' AND time < 100", "a OR (b AND c)", "-a",
   "x !~ /^(p|q)$/ OR y = 2.5", "mean(*)", "a & 3 | 4 ^ b", "a % 2 = 0 AND d > 3s", "9223372036854775808 + u",
-  "host = 'a' AND (region = 'x' OR f(v, 1, /re/) > 2)"
+  "host = 'a' AND (region = 'x' OR f(v, 1, /re/) > 2)",
+  "100 < time AND now() - 10m >= time",
+  "'2000-01-01T00:00:00Z' <= time AND host = 'a'",
+  "(host = 'a' OR host = 'b') AND ((100 <= time) AND 200 > time)",
+  "true AND (x::field + y::integer > 1) AND 5 < v"
+>>
+
+(* Expressions with constant sub-terms, one group per kind of LEFT operand of reduceBinaryExpr / evalBinaryExpr
+   (boolean, duration, integer, unsigned, number, string, time through now(), nil through the valuer), time
+   bounds of every literal kind on either side, error arms included.  They get the short histories. *)
+FoldExprs == <<
+  "true AND v > 1", "false OR true", "true = false OR true != b", "(true)", "b AND false",
+  "1h + 30m > d", "10s - 1s = 9s", "2h / 2 = 1h AND 1h * 2 >= d", "10s / 2.5 < d", "1h = 60m AND 1h != 2h AND 1h < 2h AND 1h <= d AND 2h > 1h",
+  "1m + now() > time", "1h * 2.5 > d AND 1h / 2.0 < d AND 3 * 1h > d",
+  "7 / 2 = 3 AND 7 % 3 = 1", "6 & 3 = 2 AND 6 | 1 = 7 AND 6 ^ 3 = 5", "1 - 2 < 0 AND 2 * 1.5 = 3.0 AND 1 + 1.5 > 2",
+  "1 = 1 AND 1 != 2 AND 1 >= 2 AND 1 <= v AND 2 > 1 AND 1 < 2", "1 + 9223372036854775808 > u AND 5 - 2 = 3",
+  "100 + now() > time", "1 / 0 = 0 OR 1 % 0 = 0", "2 * 1h = 2h",
+  "18446744073709551615 - 1 > u", "9223372036854775808 + 1 = u AND 9223372036854775808 * 1 / 1 % 7 & 1 | 2 ^ 3 > 0",
+  "9223372036854775808 = 9223372036854775808 AND 9223372036854775808 != 1 AND 9223372036854775808 > 1 AND 9223372036854775808 >= 1.5 AND 9223372036854775808 < 1 AND 9223372036854775808 <= 2",
+  "1.5 + 2.5 = 4.0 AND 3.0 * 2 > v", "1.5 - 1 < v AND 3.0 / 2 >= 1 AND 5.5 % 2 = 1.5", "1.5 = 1.5 AND 1.5 != v AND 2.0 <= 3 AND 2.0 > 18446744073709551615 AND 2.5 < 3.5 AND 2.5 >= 1",
+  "'a' + 'b' = 'ab'", "'a' = 'a' AND 'a' != 'b'", "'abc' =~ /b/ AND 'abc' !~ /z/",
+  "'2000-01-01T00:00:00Z' + 1h > time", "'2000-01-01T00:00:00Z' - 1h < time AND '2000-01-01T00:00:00Z' - '1999-01-01T00:00:00Z' > 1h",
+  "'2000-01-01T00:00:00Z' = '2000-01-01T00:00:00Z' AND '2000-01-01' < '2000-01-02' AND '2000-01-01 00:00:00' >= '2000-01-01' AND '2000-01-01' != '2000-01-02' AND '2000-01-03' > '2000-01-02' AND '2000-01-03' <= '2000-01-04'",
+  "now() - 1h < time AND now() + 1h > time", "now() - '2000-01-01T00:00:00Z' > 1h", "now() = now() AND now() != '2000-01-01T00:00:00Z' AND now() > '2000-01-01T00:00:00Z' AND now() <= '2030-01-01T00:00:00Z' AND now() < '2030-01-01' AND now() >= '2000-01-01'",
+  "nilv = 1 OR nilv + 1 > 2", "v + w * i > x AND host = s",
+  "time > 100.5 AND time < 10s", "10s < time AND 100.5 >= time", "time = '2000-01-01 00:00:00' AND time <= '2000-01-03'",
+  "time != 100", "time > '2300-01-01T00:00:00Z'", "time < '1600-01-01T00:00:00Z'", "time > true", "time > 'nonsense' AND time =~ /x/",
+  "time > now() OR time < 5", "(time > 5)", "host = 'a' AND (time > 5 AND (time < 10))",
+  "true & false = false OR true | false = true OR true ^ true = false OR true = nilv",
+  "1h + '2000-01-01T00:00:00Z' > time AND 1h = nilv AND 1h - 30m < d",
+  "-1 < 9223372036854775808 AND -1 > 18446744073709551615 AND -1 <= 9223372036854775808 AND -1 >= 9223372036854775808 AND 1 = 9223372036854775808",
+  "100 + 10s > time AND 100 - 10s < time AND 5 + '2000-01-01T00:00:00Z' > time AND 1 = nilv AND 1 < 2.5 AND 1 <= 2.5 AND 3 > 2.5 AND 3 >= 2.5 AND 3 != 2.5 AND 3 = 3.0",
+  "1.5 = nilv OR 1.5 < 18446744073709551615 OR 1.5 + 1 > 2 OR 1.5 * 2 = 3 OR 1.5 / 2 < 1 OR 1.5 - 1 > 0 OR 1.5 % 1 = 0.5",
+  "9223372036854775808 = nilv OR 9223372036854775808 - 1.5 > 0 OR 9223372036854775808 + 1.5 > 0 OR 9223372036854775808 * 1.5 > 0 OR 9223372036854775808 / 1.5 > 0",
+  "'a' = nilv OR '2000-01-01T00:00:00Z' = now() OR '2000-01-01T00:00:00Z' > 1h OR 'a' + 1 = 2 OR now() = nilv OR now() - 1h = now() - 60m"
 >>
 =============================================================================
